@@ -73,6 +73,8 @@ def scenarios(draw, component=None):
     elif comp in ("bpi", "ga", "pomdp_rollout"):
         scn["pomdp"] = draw(pomdp_specs(max_states=3, max_actions=2, max_obs=2, schemes=LABELS,
                                         absorbing_kinds=("n", "n", "n", "n", "abs")))
+        if comp in ("bpi", "ga"):
+            scn["seed_kind"] = draw(st.sampled_from(["int", "int", "int64", "uint32", "int32"]))
         if comp == "bpi":
             P.update(nodes=draw(st.integers(1, 2)), iterations=draw(st.integers(1, 3)))
         elif comp == "ga":
